@@ -512,7 +512,7 @@ fn phase_l2(mon: &mut Monitor, phase: &'static str, with_delay: bool, par: usize
 
 fn phase_l3(mon: &mut Monitor) {
     let dir = std::path::Path::new(env!("CARGO_MANIFEST_DIR")).join("l3");
-    let seeds: u64 = std::env::var("VERIF_L3_SEEDS").ok().and_then(|s| s.parse().ok()).unwrap_or(96);
+    let seeds: u64 = std::env::var("VERIF_L3_SEEDS").ok().and_then(|s| s.parse().ok()).unwrap_or(48);
     let target = std::env::var("VERIF_L3_TARGET").unwrap_or_else(|_| "/tmp/mon-pool-l3-target".into());
     let run = |seed: u64| -> Result<(String, bool), String> {
         let out = std::process::Command::new("cargo")
